@@ -13,6 +13,7 @@ import (
 	"sync/atomic"
 	"testing"
 	"testing/synctest"
+	"time"
 
 	"github.com/alicebob/sqlittle"
 	sdb "github.com/alicebob/sqlittle/db"
@@ -70,6 +71,23 @@ func inBubble(f func()) (leak string) {
 }
 
 type stopMarker struct{}
+
+// appCtx is a caller's own context.Context implementation (not one of the standard
+// library's): context.WithCancel then needs a goroutine to watch it, which lives until
+// the child is cancelled - a derived context that is never cancelled leaks it.
+type appCtx struct{ done chan struct{} }
+
+func (a appCtx) Deadline() (time.Time, bool) { return time.Time{}, false }
+func (a appCtx) Done() <-chan struct{}       { return a.done }
+func (a appCtx) Value(interface{}) interface{} { return nil }
+func (a appCtx) Err() error {
+	select {
+	case <-a.done:
+		return context.Canceled
+	default:
+		return nil
+	}
+}
 
 // bubbleGoroutines counts the goroutines that belong to a synctest bubble
 // (runtime.NumGoroutine would also count finalizer and other process-wide ones).
@@ -170,7 +188,7 @@ func runC19(c *sim.Ctx) {
 	variant := s.Chance(1, 3, "syntax-variant")
 	qi := func(name string) string {
 		if variant {
-			return gen.IdentRef(s, name, 6)
+			return gen.IdentRefSame(s, name, 6)
 		}
 		return gen.Quote(name)
 	}
@@ -641,7 +659,23 @@ func runC19(c *sim.Ctx) {
 				"",
 			}
 			q := bad[s.Draw(len(bad), "bad")]
-			rows, err := db.Query(q)
+			// half of the error inputs arrive with the application's own Context type
+			// (never cancelled: the application lives on); the leak oracle at the end of
+			// the bubble then sees a watcher goroutine the driver left behind
+			var qctx context.Context = context.Background()
+			if s.Chance(1, 2, "application-context") {
+				ac := appCtx{done: make(chan struct{})}
+				qctx = ac
+				prevRescue := rescue
+				rescue = func() {
+					close(ac.done)
+					if prevRescue != nil {
+						prevRescue()
+					}
+				}
+				c.Probe("error-input-with-application-context")
+			}
+			rows, err := db.QueryContext(qctx, q)
 			note("Query(%q)", q)
 			if err == nil {
 				n := 0
@@ -654,7 +688,7 @@ func runC19(c *sim.Ctx) {
 					fail("error-swallowed", "bad-query-accepted", fmt.Sprintf("Query(%q) returned %d rows and no error through Query, Scan or rows.Err", q, n))
 				}
 			}
-			if _, err := db.Exec("INSERT INTO x VALUES (1)"); err == nil {
+			if _, err := db.ExecContext(qctx, "INSERT INTO x VALUES (1)"); err == nil {
 				fail("error-swallowed", "exec-accepted", "Exec succeeded on a read-only driver")
 			}
 			c.Probe("error-input")
@@ -820,7 +854,7 @@ func init() {
 	sim.Register(&sim.Prop{
 		ID: "C19", Engine: "E-DRV", Level: "exploration", Fn: runC19, NewEnv: NewEnv,
 		Runs: map[string]int{"quick": 1600, "thorough": 60000},
-		Rule: "per run: a database from the workload generator; a query `SELECT *|cols FROM t` (drawn column list) through the driver vs the native Select; inside a testing/synctest bubble one of four modes: (0) database/sql: read k rows (k drawn 0..n+1) then read to the end / rows.Close / cancel+Close / cancel+drain; (1) driver.Stmt on a tracing pager with the producer goroutine parked at EVERY page read: a seeded schedule of {release producer, Next (in its own goroutine, may be outstanding while the producer is parked), cancel, Close} one action at a time with synctest.Wait between; (2) the same with a read error injected at the k-th page read of the scan; (3) error inputs (unknown table/column, non-SELECT, unparsable, Exec); (4) a prepared statement kept open and executed 2-4 times (complete or closed at k; one in five with an unknown column) with seeded SQLite write transactions (DML, ALTER, VACUUM ...) committed between executions: every execution equals the native select of the then-current state, `*` follows the current definition, and after each execution - statement still open - the process holds no lock; oracles: same rows/order/columns as native, errors surface through Query/Next/rows.Err/Close, no goroutine of the bubble left blocked (synctest deadlock report), no POSIX lock of the process left on the file, a SQLite write succeeds afterwards; evaluations = scenarios; non-trivial = table had rows; distinct = distinct event logs",
+		Rule: "per run: a database from the workload generator; a query `SELECT *|cols FROM t` (drawn column list) through the driver vs the native Select; inside a testing/synctest bubble one of four modes: (0) database/sql: read k rows (k drawn 0..n+1) then read to the end / rows.Close / cancel+Close / cancel+drain; (1) driver.Stmt on a tracing pager with the producer goroutine parked at EVERY page read: a seeded schedule of {release producer, Next (in its own goroutine, may be outstanding while the producer is parked), cancel, Close} one action at a time with synctest.Wait between; (2) the same with a read error injected at the k-th page read of the scan; (3) error inputs (unknown table/column, non-SELECT, unparsable, Exec), half of them under the caller's own Context implementation (a derived context left uncancelled then leaves a watcher goroutine behind); (4) a prepared statement kept open and executed 2-4 times (complete or closed at k; one in five with an unknown column) with seeded SQLite write transactions (DML, ALTER, VACUUM ...) committed between executions: every execution equals the native select of the then-current state, `*` follows the current definition, and after each execution - statement still open - the process holds no lock; oracles: same rows/order/columns as native, errors surface through Query/Next/rows.Err/Close, no goroutine of the bubble left blocked (synctest deadlock report), no POSIX lock of the process left on the file, a SQLite write succeeds afterwards; evaluations = scenarios; non-trivial = table had rows; distinct = distinct event logs",
 		Real: append([]string{"sqlittle driver package, database/sql (real, inside the bubble), producer goroutine; unix file pager on real files"}, realAll...),
 		Stub: []string{"none: the gate in the tracing pager only parks the producer"},
 		Assumptions: []string{"Go's choice among several ready select cases is not seedable: the scheduler never cancels while a Next is outstanding on a parked producer and never issues Next after cancel; both outcomes of that select are reached through the two explored orders (DESIGN §5.4)", "the goroutine-leak oracle is synctest's end-of-bubble deadlock report"},
@@ -847,7 +881,7 @@ func init() {
 			return ""
 		},
 		Vacuity: func(st map[string]int64, runs int, tier string) error {
-			for _, p := range []string{"complete-result-compared", "mid-scan-fault-surfaced", "error-input", "sqlite-write-after-close", "prepared-reexecution-compared", "prepared-execution-error"} {
+			for _, p := range []string{"complete-result-compared", "mid-scan-fault-surfaced", "error-input", "error-input-with-application-context", "sqlite-write-after-close", "prepared-reexecution-compared", "prepared-execution-error"} {
 				if st["probe."+p] == 0 {
 					return fmt.Errorf("reach probe %q is zero", p)
 				}
